@@ -30,6 +30,7 @@ class Scope:
         self.kids = []
         self.refs = []   # (k, NAME)
         self.uses = []
+        self.imports = []   # local names brought in by USE … ONLY / rename lists
 
 
 def build(rng, std):
@@ -86,6 +87,32 @@ def build(rng, std):
                 mod = rng.choice(["mod_q", "iso_x"])
                 sc.uses.append(mod)
                 lines.append(pad + "  use %s" % mod)
+            if rng.random() < 0.35:
+                # only-list / rename-list whose local names are intrinsic names, with generic
+                # specs (operators, assignment) before, between and after them
+                mod = rng.choice(["vec_ops", "mod_r"])
+                sc.uses.append(mod)
+                ents = []
+                for _ in range(rng.randint(1, 4)):
+                    r = rng.random()
+                    if r < 0.3:
+                        ents.append(rng.choice(["operator(.dot.)", "operator(+)", "assignment(=)", "OPERATOR (.x.)"]))
+                    elif r < 0.65:
+                        nm = rng.choice(INTR)
+                        sc.imports.append(nm)
+                        ents.append(nm if rng.random() < 0.7 else nm.upper())
+                    else:
+                        nm = rng.choice(INTR)
+                        sc.imports.append(nm)
+                        ents.append("%s => v_%s" % (nm, nm))
+                only = rng.random() < 0.7
+                if not only:
+                    ents = [e for e in ents if "=>" in e]
+                    sc.imports[:] = [e.split(" =>")[0] for e in ents]
+                if ents:
+                    lines.append(pad + "  use %s, %s%s" % (mod, "only: " if only else "", ", ".join(ents)))
+                elif only:
+                    lines.append(pad + "  use %s, only:" % mod)
         for nm in sc.decls:
             form = rng.choice(["integer :: %s", "real :: %s(10)", "real, dimension(5) :: %s", "integer %s"])
             lines.append(pad + "  " + form % nm)
@@ -153,7 +180,7 @@ def real_forest():
 
 def visible(sc, name):
     while sc is not None:
-        if name in sc.decls:
+        if name in sc.decls or name in sc.imports:
             return True
         sc = sc.parent
     return False
